@@ -18,6 +18,7 @@ import CookModel.Lemmas.DiagSoundDoc
 import CookModel.Lemmas.DiagAnalysisIff
 import CookModel.Lemmas.DiagRefChecksExact
 import CookModel.Lemmas.DiagEmptyValueMore
+import CookModel.Lemmas.DiagSoundConv
 /-
   C07  Diagnostics are sound, complete and placed on the offending construct.
 
@@ -2020,5 +2021,66 @@ example : ∃ body s1 s2 s3, Cut .tilde C07_exTimerLock [] body s1 s2 s3 ∧
   ⟨_, _, _, _, ⟨⟨_, rfl⟩, rfl, rfl⟩, rfl, rfl, rfl⟩
 example : (timerP C07_exTimerLock).2.evs = #[.error ⟨.error, .parse, "empty-value", [⟨3, 4⟩]⟩,
     .error ⟨.error, .parse, "timer-missing-unit", [⟨4, 4⟩]⟩] := rfl
+
+/-! ### Soundness under every extension set: C02's premises from the abstract document (wave 4) -/
+
+/-- **The converter premise of C02, from the abstract document.**  For a well-formed document of steps (the
+    hypotheses of `C07_sound_recipe_steps`, extension flags arbitrary), if every segment satisfies the
+    extension-independent predicate `SegX.convCore` — a text run shows something and `find_inline_quantity`
+    finds nothing in it (in particular when it contains no ASCII digit: second part), a timer amount is
+    numeric and its unit, if any, is a time unit of the converter — then every event the pull parser
+    delivers for the printed text satisfies `evConvCore`: the premise `hconv` of
+    `C07_sound_recipe_steps_all_extensions` / `C02_parse_ext_irrelevant` holds. -/
+theorem C07_conv_premise_from_document (env : Env) (pre : List Tok) (doc : List (List SegX × List Tok))
+    (hpre : blankLinesOK pre = true) (hok : ∀ d ∈ doc, (DocItem.step d.1).ok env.cs env.ext = true)
+    (hsimple : ∀ d ∈ doc, d.1.all SegX.simple = true) (hseps : sepsOK (doc.map (·.2)) = true)
+    (hw : WellSpelled env.cs (pre ++ docSpec (stepsDoc doc)))
+    (hfm : parseFrontmatter env.cs (render (pre ++ docSpec (stepsDoc doc))) = none)
+    (hx : ∀ d ∈ doc, ∀ sg ∈ d.1, sg.convCore α env) :
+    (pullEvents (α := α) env.cs env.ext (render (pre ++ docSpec (stepsDoc doc)))).1.toList.all
+      (evConvCore α env) = true ∧
+    (∀ l : List Tok, l.flatMap vis ≠ [] → (l.flatMap vis).all (fun c => !isAsciiDigitC c) = true →
+      (SegX.text l).convCore α env) :=
+  ⟨c07c_steps_evConvCore env pre doc hpre hok hsimple hseps hw hfm hx,
+   fun l h1 h2 => ⟨h1, rts_no_digit_no_inline env _ _ _ h2⟩⟩
+
+/-- **… under EVERY extension set, with the converter premise on the abstract document** (partial).
+    `C07_sound_recipe_steps_all_extensions` with its premise `hconv` (a check on the EVENTS of the printed
+    text) replaced by `SegX.convCore` on the segments of the abstract document.
+    Partial: the other C02 premise, `UsesNoneInput` (every block of the token stream is free of extension
+    syntax: no modifier character after a marker, no `|` in a name, no `-` in an amount, an amount shape the
+    advanced-units reader declines, every timer has an amount) is still a decidable check on the printed
+    text; deriving it from a predicate on the segments needs `stepCore` / `longBody` of the spelled tokens of a
+    step, segment by segment, which is not done. -/
+theorem C07_sound_recipe_steps_all_extensions_abs_partial (env : Env) (hws : env.cs.uws ' ' = true)
+    (pre : List Tok) (doc : List (List SegX × List Tok))
+    (hadv : env.ext.has Gen.EXT_ADVANCED_UNITS = false) (hinl : env.ext.has Gen.EXT_INLINE_QUANTITIES = false)
+    (hpre : blankLinesOK pre = true) (hok : ∀ d ∈ doc, (DocItem.step d.1).ok env.cs env.ext = true)
+    (hsimple : ∀ d ∈ doc, d.1.all SegX.simple = true) (hseps : sepsOK (doc.map (·.2)) = true)
+    (hw : WellSpelled env.cs (pre ++ docSpec (stepsDoc doc)))
+    (hfm : parseFrontmatter env.cs (render (pre ++ docSpec (stepsDoc doc))) = none)
+    (hu : UsesNoneInput env.cs (render (pre ++ docSpec (stepsDoc doc))) = true)
+    (hx : ∀ d ∈ doc, ∀ sg ∈ d.1, sg.convCore α env) (e : Ext) :
+    (parseRecipe (α := α) { env with ext := e } (render (pre ++ docSpec (stepsDoc doc)))).diags = #[] ∧
+    (parseRecipe (α := α) { env with ext := e } (render (pre ++ docSpec (stepsDoc doc)))).isValid = true ∧
+    (parseRecipe (α := α) { env with ext := e } (render (pre ++ docSpec (stepsDoc doc)))).panic = none :=
+  C07_sound_recipe_steps_all_extensions env hws pre doc hadv hinl hpre hok hsimple hseps hw hfm hu
+    (c07c_steps_evConvCore env pre doc hpre hok hsimple hseps hw hfm hx) e
+
+/-! non-vacuity: the segments of `C07_coreDoc` (`Mix @salt{} for ~{10%min}.`) satisfy `SegX.convCore` for
+    `C07_coreEnv` (the text runs have no digit; the timer amount is the number 10 in `min`, a time unit) -/
+example : ∀ d ∈ C07_coreDoc, ∀ sg ∈ d.1, sg.convCore Rat C07_coreEnv := by
+  intro d hd sg hsg
+  simp only [C07_coreDoc, List.mem_cons, List.not_mem_nil, or_false] at hd
+  subst hd
+  simp only [List.mem_cons, List.not_mem_nil, or_false] at hsg
+  rcases hsg with rfl | rfl | rfl | rfl | rfl
+  · exact ⟨by decide, rts_no_digit_no_inline _ _ _ _ (by decide)⟩
+  · trivial
+  · exact ⟨by decide, rts_no_digit_no_inline _ _ _ _ (by decide)⟩
+  · intro q hq
+    cases hq
+    exact ⟨by decide, fun u hu => by cases hu; decide⟩
+  · exact ⟨by decide, rts_no_digit_no_inline _ _ _ _ (by decide)⟩
 
 end Cook
